@@ -353,9 +353,12 @@ def blockEnd (ctx : CloseCtx) (lineNumber curEnd lastLen : Nat) : Nat × Nat :=
   | .ownLine => (lineNumber, curEnd)
   | .laterLine => (lineNumber - 1, lastLen)
 
-/-- Thematic break end column as the code computes it (`line.len() - 1 - self.offset`) and as the
-    documentation promises it (`line.len() - 1`, the last byte of the line). -/
-def thematicEndCode (lineLen offset : Nat) : Nat := lineLen - 1 - offset
+/-- Thematic break end column as the pinned tree computed it (`line.len() - 1 - self.offset`), as the
+    code computes it since the repair (`curline_end_col` = the line without its LF, set when the
+    break is opened and no longer replaced by `finalize_borrowed`, which now tests for a thematic
+    break first) and as the documentation promises it (the last byte of the line). -/
+def thematicEndOld (lineLen offset : Nat) : Nat := lineLen - 1 - offset
+def thematicEndCode (lineLen : Nat) : Nat := lineLen - 1
 def thematicEndSpec (lineLen : Nat) : Nat := lineLen - 1
 
 end Comrak
